@@ -129,6 +129,17 @@ func (e *Env) Eval(ex Expr) (Val, error) {
 	case *EIndex:
 		return e.evalIndex(t)
 	case *ESlice:
+		// slicing an array-typed field of a struct object (obj.F[:], obj.A.B[:]): the backing array
+		// is the field's derived reference
+		if sel, ok := t.X.(*ESel); ok && e.x != nil && t.Lo == nil && t.Hi == nil {
+			if ref, sty, ok := e.x.lvalRef(e, sel.X); ok {
+				if fty := fieldType(e.u, sty, sel.Name); fty != nil {
+					if at, isA := fty.Underlying().(*types.Array); isA {
+						return Val{T: fmt.Sprintf("(mk-slice %s 0 %d %d)", e.u.subRef(sty, sel.Name, ref), at.Len(), at.Len()), Ty: types.NewSlice(at.Elem())}, nil
+					}
+				}
+			}
+		}
 		v, err := e.Eval(t.X)
 		if err != nil {
 			return Val{}, err
@@ -814,16 +825,48 @@ func (e *Env) evalCall(t *ECall) (Val, error) {
 			c := *e
 			c.inOld = true
 			return Val{T: fmt.Sprintf("(and (not (= %[1]s 0)) (= (refroot %[1]s) %[1]s) (= (refkind %[1]s) 0) (not (select %[2]s %[1]s)) (select %[3]s %[1]s))", ref, c.heap(allocComp), e.heap(allocComp)), Ty: types.Typ[types.Bool]}, nil
+		case "arg":
+			// arg(f, i): the i-th argument (receiver first) of the (most recent / k-th) call to f
+			if e.x == nil || len(t.Args) != 2 {
+				return Val{}, e.errf("arg(f, i) needs an executing function")
+			}
+			nm := callName(t.Args[0])
+			lit, ok := t.Args[1].(*ELit)
+			if nm == "" || !ok {
+				return Val{}, e.errf("arg(f, i): f must be a function name and i a literal")
+			}
+			as, ok := e.x.callArgs[nm]
+			n, err := strconv.Atoi(lit.Val)
+			if !ok || err != nil || n < 0 || n >= len(as) {
+				return Val{}, e.errf("arg(%s, %s): no such call or argument", nm, lit.Val)
+			}
+			return as[n], nil
+		case "called":
+			// called(f): the path condition under which the (most recent / k-th, "f#k") call to f made
+			// by the function under contract is reached -- for "whenever X happened, f was called"
+			if e.x == nil || len(t.Args) != 1 {
+				return Val{}, e.errf("called(f) needs an executing function")
+			}
+			nm := callName(t.Args[0])
+			if nm == "" {
+				return Val{}, e.errf("called(f): f must be a function name")
+			}
+			r, ok := e.x.callReach[nm]
+			if !ok {
+				return Val{T: "false", Ty: types.Typ[types.Bool]}, nil
+			}
+			return Val{T: r, Ty: types.Typ[types.Bool]}, nil
 		case "result":
 			// result(f) / result(f, i): the (i-th) result of the most recent call to f made by the
 			// function under contract before this point (for at-call clauses about data flow)
 			if e.x == nil || len(t.Args) == 0 {
 				return Val{}, e.errf("result() needs an executing function")
 			}
-			id, ok := t.Args[0].(*EIdent)
-			if !ok {
+			fnm := callName(t.Args[0])
+			if fnm == "" {
 				return Val{}, e.errf("result(f): f must be a function name")
 			}
+			id := &EIdent{Name: fnm}
 			rv, ok := e.x.callResults[id.Name]
 			if !ok {
 				return Val{}, e.errf("result(%s): no call to %s was executed before this point", id.Name, id.Name)
@@ -1368,4 +1411,27 @@ func sidxPatterns(term, v string) []string {
 		}
 	}
 	return out
+}
+
+// callName: f, T.f, f#k or T.f#k written as an expression (the ordinal is parsed as "f # k" is not Go:
+// it is written f_k? no: as a call-free selector; ordinals use the form nth(f, k))
+func callName(e Expr) string {
+	switch t := e.(type) {
+	case *EIdent:
+		return t.Name
+	case *ESel:
+		if id, ok := t.X.(*EIdent); ok {
+			return id.Name + "." + t.Name
+		}
+	case *ECall:
+		// nth(f, k)
+		if id, ok := t.Fun.(*EIdent); ok && id.Name == "nth" && len(t.Args) == 2 {
+			if lit, ok := t.Args[1].(*ELit); ok {
+				if b := callName(t.Args[0]); b != "" {
+					return b + "#" + lit.Val
+				}
+			}
+		}
+	}
+	return ""
 }
